@@ -3,6 +3,7 @@
 checks: nothing here can raise a VIOLATION for a listed property).
 
   tools/extras.py runargs [seed]     RunArgs.tla: argument validation of uberjob.run, refused before any effect
+  tools/extras.py sources            Sources.tla: LiteralSource / ModifiedTimeSource / PathSource decision table
   tools/extras.py mounted [seed]     Mounted.tla: the copy protocol of MountedStore with failing steps and several threads
 Run with PYTHONPATH=<repo>/src:/verif (tools/extras.sh does that)."""
 import contextlib
@@ -318,8 +319,73 @@ def mounted(seed):
     return 1 if rejected else 0
 
 
+# --------------------------------------------------------------------------------------
+# Sources.tla
+
+
+def sources(seed):
+    import os
+    import pathlib
+
+    from uberjob import stores as S
+
+    evs = []
+    with common.scratch("vf-sources-") as d:
+        for pathkind in ("str", "pathlib"):
+            for k in ("literal", "mtime", "path_required", "path_optional"):
+                for s_ in ("set", "unset"):
+                    t = dt.datetime(2020, 5, 17, 12, 0, 0)
+                    marker = object()
+                    p = os.path.join(d, f"{k}-{s_}-{pathkind}.dat")
+                    if s_ == "set" and k.startswith("path"):
+                        with open(p, "w") as f:
+                            f.write("x")
+                        os.utime(p, (t.timestamp(), t.timestamp()))
+                    pp = pathlib.Path(p) if pathkind == "pathlib" else p
+                    if k == "literal":
+                        st = S.LiteralSource(marker, t if s_ == "set" else None)
+                    elif k == "mtime":
+                        st = S.ModifiedTimeSource(t if s_ == "set" else None)
+                    else:
+                        st = S.PathSource(pp, required=(k == "path_required"))
+                    for op in ("read", "mtime", "write"):
+                        try:
+                            r = st.read() if op == "read" else st.get_modified_time() if op == "mtime" else st.write(1)
+                            if r is None:
+                                out = "none"
+                            elif r is marker or r is pp:
+                                out = "value"
+                            elif isinstance(r, dt.datetime) and (r == t or r is t):
+                                out = "time"
+                            else:
+                                out = "other:" + repr(r)[:60]
+                        except NotImplementedError:
+                            out = "NotImplementedError"
+                        except OSError:
+                            out = "OSError"
+                        except BaseException as ex:  # noqa
+                            out = "other:" + type(ex).__name__
+                        evs.append({"k": k, "s": s_, "op": op, "outcome": out, "pathkind": pathkind})
+    # a ModifiedTimeSource refuses anything but a datetime or None
+    try:
+        S.ModifiedTimeSource("2020-01-01")
+        ctor = "accepted"
+    except TypeError:
+        ctor = "TypeError"
+    _acc, rej, _r = tlc.validate_traces("SourcesTrace", "SourcesTrace.cfg", [{"events": evs}])
+    bogus = [dict(evs[0], outcome="none")]
+    _a, rej0, _r2 = tlc.validate_traces("SourcesTrace", "SourcesTrace.cfg", [{"events": bogus}])
+    if not rej0:
+        raise common.MachineryError("SourcesTrace accepted a corrupted record")
+    bad = [(c, evs[l - 1]) for _t, cl in rej.items() for l, c in cl]
+    print(f"sources: {len(evs)} (kind, state, operation, path form) cases on the real classes, {len(bad)} differ from Sources.tla; ModifiedTimeSource('2020-01-01') -> {ctor}")
+    for c, e in bad[:10]:
+        print("  ", c, e)
+    return 1 if bad or ctor != "TypeError" else 0
+
+
 if __name__ == "__main__":
     common.assert_repo_uberjob()
     what = sys.argv[1] if len(sys.argv) > 1 else "runargs"
     seed = int(sys.argv[2]) if len(sys.argv) > 2 else 0
-    sys.exit({"runargs": runargs, "mounted": mounted}[what](seed))
+    sys.exit({"runargs": runargs, "mounted": mounted, "sources": sources}[what](seed))
